@@ -8,11 +8,11 @@ N = int(sys.argv[1]) if len(sys.argv) > 1 else 60
 SEED = int(sys.argv[2]) if len(sys.argv) > 2 else 1
 REPO = "/repo"
 FILES = {
-    "src/tools.rs": ["C15", "C16", "C01", "C02", "C03", "C05"],
-    "src/spec_util.rs": ["C11", "C07", "C06", "C01", "C13", "C14"],
-    "src/tag_writer.rs": ["C09", "C10", "C19", "C01", "C02", "C11"],
-    "src/tag_iterator.rs": ["C01", "C03", "C04", "C05", "C06", "C07", "C08", "C12", "C13", "C14", "C17", "C02"],
-    "src/tag_iterator_util.rs": ["C01", "C07", "C17", "C12", "C06"],
+    "src/tools.rs": ["C15", "C16", "C01"],
+    "src/spec_util.rs": ["C11", "C07", "C06", "C13"],
+    "src/tag_writer.rs": ["C09", "C10", "C19", "C01", "C18"],
+    "src/tag_iterator.rs": ["C03", "C04", "C05", "C06", "C08", "C12", "C14", "C17", "C01"],
+    "src/tag_iterator_util.rs": ["C17", "C12", "C06"],
     "src/nonblocking.rs": ["C20"],
 }
 OPS = [
